@@ -117,6 +117,8 @@ FIXED = [
     ("def f(a, b):\n    c = a + b * 2\n    return c\n", "a + b", "a + b", "variable", "refuse_or_same", "f", [(1, 2)]),
     ("def f(names, key):\n    def norm(s):\n        return s.lower()\n    res = sorted(names, key=key)\n    return res\n\n\ndef h(names):\n    res = sorted(names, key=len)\n    return res\n",
      "    res = sorted(names, key=key)", "key=key)\n", "method_similar", "same", "h", [(["zz", "a", "ccc"],)]),
+    ("def report(items, names):\n    def key(v):\n        return v.lower()\n    out = sorted(items, key=key)\n    def key(v):\n        return v.lower()\n    res = sorted(names, key=len)\n    return out, res\n",
+     "    def key", "key=key)\n", "method_similar", "same", "report", [(["b", "A", "c"], ["zz", "a", "ccc"])]),
     ("def f(c):\n    try:\n        x = int(c)\n    except ValueError:\n        x = 5\n    return x\n", "    try:", "        x = 5\n", "method", "same", "f", [("1",), ("z",)]),
     ("def f(c):\n    x = 0\n    with open(c) as fh:\n        x = 1\n    return x\n", "    with open", "        x = 1\n", "method", "same", "f", [("/dev/null",)]),
 ]
